@@ -150,20 +150,30 @@ def scenario(scripts, merge, writer):
       res['read'][s] = ''.join(got)
       res['end'][s] = end
 
-    def do_write():
+    writers = [writer] if isinstance(writer, str) else list(writer or [])
+    wres = {}
+
+    def do_write(k=0):
       try:
-        streams[0].write(writer, timeout_ms=300)
-        res['write'] = 'ok'
+        streams[0].write(writers[k], timeout_ms=300)
+        wres[k] = 'ok'
       except Exception as e:  # pylint: disable=broad-except
-        res['write'] = 'error:%s:%s' % (type(e).__name__, str(e)[:80])
+        wres[k] = 'error:%s:%s' % (type(e).__name__, str(e)[:80])
 
     ths = [threading.Thread(target=reader, args=(s,), name='r%d' % s) for s in range(len(scripts))]
-    if writer:
-      ths.append(threading.Thread(target=do_write, name='w'))
+    for k in range(len(writers)):
+      ths.append(threading.Thread(target=do_write, args=(k,), name='w%d' % k if k else 'w'))
     for t in ths:
       t.start()
     for t in ths:
       t.join()
+    if writers:
+      # a write() that finds another WRTE of its stream in flight is refused by design (AdbProtocolError, the check is
+      # made before queueing for the write lock): not a failure of the property, the data is simply not sent
+      refused = [k for k, r in wres.items() if len(writers) > 1 and r.startswith('error:AdbProtocolError:Previous WRTE failed')]
+      bad = [r for k, r in wres.items() if r != 'ok' and k not in refused]
+      res['write'] = 'ok' if not bad and len(wres) == len(writers) else (bad[0] if bad else 'missing')
+      res['written'] = [writers[k] for k in sorted(wres) if wres[k] == 'ok']
     res['rx'] = list(dev.rx)
     res['dev_violations'] = list(dev.violations)
     res['left'] = len(dev.out)
@@ -187,6 +197,7 @@ def execute(cfg, choices):
       focus_files=('openhtf/plugs/usb/adb_protocol.py',), max_steps=60000)
   result = {'value': value if isinstance(value, dict) else repr(value), 'failure': repr(sched.failure) if sched.failure else None}
   result['timer_deviations'] = sum(1 for p in sched.points if p['kinds'][p['choice']] == 'timer' and 'run' in p['kinds'])
+  result['early_jump'] = round(getattr(sched, 'early_jump', 0.0), 6)
   if isinstance(value, dict) and 'read' in value:
     result['outcome_key'] = (tuple(sorted(value['read'].items())), tuple(sorted(value['end'].items())), value['write'])
   else:
@@ -199,7 +210,7 @@ def check(cfg):
 
   def chk(ex):
     rep = {'part': 'streams', 'cfg': [scripts, merge, writer], 'choices': ex.choices}
-    tag = '%dstreams%s' % (len(scripts), '+writer' if writer else '')
+    tag = '%dstreams%s' % (len(scripts), ('+%dwriters' % len(writer) if isinstance(writer, (list, tuple)) else '+writer') if writer else '')
     out = []
     v = ex.result['value']
     if ex.failure is not None:
@@ -208,7 +219,10 @@ def check(cfg):
     if not isinstance(v, dict) or 'read' not in v:
       out.append(('harness-exception:%s' % tag, 'scenario raised %r' % (v,), rep))
       return out
-    strict = ex.result.get('timer_deviations', 0) == 0     # no explored clock jump: nothing may time out early
+    # Explored clock jumps (a timer firing while threads could still run = the threads were slow) may make a read or
+    # write time out legitimately -- but only if the clock ran ahead by a sizeable part of the smallest timeout (60 ms);
+    # waking a 5 ms device poll early cannot.
+    strict = ex.result.get('early_jump', 0.0) < 0.03
     for s, sc in enumerate(scripts):
       want = ''.join(x for x in sc if x != 'CLSE')
       got = v['read'].get(s)
@@ -242,8 +256,12 @@ def check(cfg):
         out.append(('write-failed:%s' % tag, 'stream write ended with %r (clock deviations: %d)'
                     % (v['write'], ex.result.get('timer_deviations', 0)), rep))
       sent = ''.join(m[3] for m in v['rx'] if m[0] == 'WRTE')
-      if (v['write'] == 'ok' and sent != writer) or not writer.startswith(sent):
-        out.append(('write-content:%s' % tag, 'device received %r, host wrote %r' % (sent, writer), rep))
+      if isinstance(writer, str):
+        if (v['write'] == 'ok' and sent != writer) or not writer.startswith(sent):
+          out.append(('write-content:%s' % tag, 'device received %r, host wrote %r' % (sent, writer), rep))
+      elif v['write'] == 'ok' and sent not in [''.join(p) for p in itertools.permutations(v.get('written', []))]:
+        # several writers on one stream: each write() is one unit (<= maxdata), the device sees them in some order
+        out.append(('write-content:%s' % tag, 'device received %r, host threads wrote %r' % (sent, list(writer)), rep))
     return out
   return chk
 
@@ -260,7 +278,11 @@ def configs(tier):
   out.append((one, merges(one)[0], None, 1 if tier == 'quick' else 2))
   one_b = [['a', 'b', 'c']]
   out.append((one_b, merges(one_b)[0], '012345', 1 if tier == 'quick' else 2))
+  # two threads writing to the same stream (at most one unacknowledged WRTE at any time), without and with a reader
+  none_s = [[]]
+  out.append((none_s, [], ['01', '23'], 1 if tier == 'quick' else 2))
   if tier == 'thorough':
+    out.append(([['a']], merges([['a']])[0], ['01', '23'], 1))
     out.append((one_b, merges(one_b)[0], '0123456789', 1))
   if tier == 'thorough':
     three = [['1', '2', 'CLSE'], ['a', 'CLSE'], ['x', 'CLSE']]
